@@ -78,6 +78,8 @@ Defs == [
   \* a dataclass with a field that is no constructor parameter (init=False, with a default)
   D9  |-> [flavour |-> "dataclass",    module |-> "m1", py |-> "D9",  fields |-> << <<"a", P("int"), FALSE>>,
                                                                                      <<"stamp", Wrap("noinit", P("date")), TRUE, "datetime.date(2020, 1, 1)">> >>],
+  \* a dataclass whose instances are falsy (a status object, an empty page: __bool__ / __len__ belong to the value, not to its type)
+  F1  |-> [flavour |-> "dc_falsy",     module |-> "m1", py |-> "F1",  fields |-> << <<"n", P("int"), FALSE>>, <<"at", P("date"), FALSE>> >>],
   \* a dataclass whose instances can be called (a structured class like any other)
   K1  |-> [flavour |-> "dc_call",      module |-> "m1", py |-> "K1",  fields |-> << <<"n", P("int"), FALSE>>, <<"at", P("date"), FALSE>> >>],
   \* no class-level annotations: members come from the constructor's signature, one of them keyword-only
@@ -94,7 +96,9 @@ HashPrims == Prims \ {"Pattern"}
 Enums == {"Color", "Level", "Tag"}
 \* (the last three mix a text with the value that text decodes to)
 Lits == {Lit(<<LInt("1"), LStr("a")>>), Lit(<<LStr("x"), LNone>>), Lit(<<LBool("True"), LInt("2")>>),
-         Lit(<<LStr("1"), LInt("1")>>), Lit(<<LStr("null"), LNone>>), Lit(<<LStr("true"), LBool("True")>>)}
+         Lit(<<LStr("1"), LInt("1")>>), Lit(<<LStr("null"), LNone>>), Lit(<<LStr("true"), LBool("True")>>),
+         \* members that compare equal but are of different classes
+         Lit(<<LInt("1"), LBool("True")>>), Lit(<<LInt("0"), LBool("False"), LStr("off")>>)}
 
 CollSpell == {<<"list", "builtin">>, <<"list", "typing">>, <<"list", "Sequence">>, <<"list", "abcSequence">>,
               <<"list", "MutableSequence">>, <<"list", "Collection">>, <<"list", "Iterable">>, <<"list", "abcIterable">>,
